@@ -39,17 +39,29 @@ module Nat :
   val ltb : nat -> nat -> bool
  end
 
+val hd : 'a1 -> 'a1 list -> 'a1
+
+val hd_error : 'a1 list -> 'a1 option
+
 val nth : nat -> 'a1 list -> 'a1 -> 'a1
 
 val nth_error : 'a1 list -> nat -> 'a1 option
 
 val rev : 'a1 list -> 'a1 list
 
+val concat : 'a1 list list -> 'a1 list
+
 val map : ('a1 -> 'a2) -> 'a1 list -> 'a2 list
+
+val fold_left : ('a1 -> 'a2 -> 'a1) -> 'a2 list -> 'a1 -> 'a1
 
 val fold_right : ('a2 -> 'a1 -> 'a1) -> 'a1 -> 'a2 list -> 'a1
 
 val existsb : ('a1 -> bool) -> 'a1 list -> bool
+
+val forallb : ('a1 -> bool) -> 'a1 list -> bool
+
+val find : ('a1 -> bool) -> 'a1 list -> 'a1 option
 
 val firstn : nat -> 'a1 list -> 'a1 list
 
@@ -367,6 +379,8 @@ val fill_array : nat -> 'a1 list -> 'a1 list res
 
 val map_res : ('a1 -> 'a2 res) -> 'a1 list -> 'a2 list res
 
+val arglist_words : env -> st -> ptr -> bool -> word option list res
+
 val handle_arglist : env -> opt -> st -> ptr -> bool -> store res
 
 val next_arg : (st -> ptr option -> outcome res) -> st -> outcome res
@@ -382,9 +396,21 @@ val dispatch :
   env -> (st -> ptr option -> outcome res) -> st -> ptr -> opt -> bool ->
   bool -> ptr option -> outcome res
 
+val consume_value :
+  env -> st -> ptr -> nat option -> ptr option -> (st * ptr) res
+
+val find_value : env -> ptr -> nat option -> bool -> (ptr option * bool) res
+
+val with_value :
+  env -> (st -> ptr option -> outcome res) -> st -> ptr -> opt -> nat option
+  -> bool -> bool -> ptr option -> outcome res
+
 val after_find :
   env -> (st -> ptr option -> outcome res) -> st -> ptr -> nat -> bool ->
   outcome res
+
+val lookup :
+  env -> (st -> ptr option -> outcome res) -> st -> ptr -> outcome res
 
 val step :
   env -> (st -> ptr option -> outcome res) -> st -> ptr option -> outcome res
@@ -409,3 +435,79 @@ val parse_twice : env -> st -> outcome res
 val init_argv : nat -> nat option list
 
 val init_st : nat -> store -> z -> st
+
+type optref =
+| ByShort of z
+| ByLong of word
+
+type spelling =
+| ShortFlag of z
+| Bundle of z list
+| ShortAttached of z * word
+| ShortSep of z * word
+| LongFlag of word
+| LongEq of word * word
+| LongSep of word * word
+| BoolWord of word * word
+| ArgListRest of optref * word list
+| Word of word
+
+val ref_arg : optref -> word
+
+val render_one : spelling -> word list
+
+val render : spelling list -> word list
+
+type kind =
+| KBool
+| KStr
+| KInt
+| KList
+| KAbs
+| KNone
+
+val kind_of : opt -> kind
+
+val find_opt : opt list -> optref -> opt option
+
+val put : 'a1 list -> nat option -> ('a1 -> 'a1) -> 'a1 list
+
+val split_words : word -> word option list
+
+type optarg =
+| AFlag
+| AVal of word
+| ARest of word list
+
+val assign : bool -> opt -> optarg -> store -> store
+
+val assign_ref : bool -> opt list -> optref -> optarg -> store -> store
+
+val ideal_one :
+  bool -> opt list -> (store * word list) -> spelling -> store * word list
+
+val ideal : bool -> opt list -> spelling list -> store -> store * word list
+
+val nz_word : word -> bool
+
+val no_eq : word -> bool
+
+val letter_ok_b : z -> bool
+
+val flag_kind : opt -> bool
+
+val value_kind : opt -> word -> bool
+
+val list_kind : opt -> bool
+
+val bool_kind : opt -> bool
+
+val opt_is : opt list -> optref -> (opt -> bool) -> bool
+
+val name_ok : word -> bool
+
+val sp_ok : opt list -> spelling -> word option -> bool
+
+val sps_ok : opt list -> spelling list -> bool
+
+val names_ok : opt list -> bool
